@@ -149,6 +149,7 @@ impl Prop for C12 {
         };
         let mut obs = Fnv::new();
         let h: Word = program.hash().into();
+        let mon = crate::model::air_monitor::Monitor::new(&trace, spec.stack());
         for (k, key) in ["challenges", "challenges_2"].iter().enumerate() {
             let ch: Vec<Quad> = challenges_from(&vm::u64s(&sc[*key]));
             let aux = match catch(|| trace.build_aux_segment(&[], &ch)) {
@@ -163,6 +164,27 @@ impl Prop for C12 {
                 }
             };
             out.nontrivial = true;
+            // columns whose boundary values are part of the AIR (stack overflow table, range checker):
+            // the AIR's own assertions are the specification
+            {
+                use winter_air::Air;
+                let rand = mon.rand_elements(&ch);
+                for a in mon.air.get_aux_assertions(&rand) {
+                    let col = a.column();
+                    let mut bad: Option<(usize, Quad, Quad)> = None;
+                    a.apply(len, |step, value| {
+                        if aux.get(col, step) != value && bad.is_none() {
+                            bad = Some((step, aux.get(col, step), value));
+                        }
+                    });
+                    if let Some((step, got, want)) = bad {
+                        let which = if step == 0 { "initial" } else { "terminal" };
+                        out.violate(format!("C12/{}/{}/{}", which, COLS[col.min(6)], feat(col)), format!("column {} at step {} is {:?}, the AIR's boundary assertion requires {:?} (challenge set {})", COLS[col.min(6)], step, got, want, k));
+                    } else {
+                        out.count(&format!("reach:balanced|{}|air-assertion", COLS[col.min(6)]));
+                    }
+                }
+            }
             let p2_init = ch[0] + ch[2].mul_base(h[0]) + ch[3].mul_base(h[1]) + ch[4].mul_base(h[2]) + ch[5].mul_base(h[3]);
             let one = Quad::ONE;
             let zero = Quad::ZERO;
